@@ -341,9 +341,12 @@ fn gen_delegation_method<'s>(
             },
         },
         _ => {
+            // `self` / `self: Self`, but not typed receivers like `self: &Self` or `self: Box<Self>`
             let takes_self_by_value = matches!(
                 fn_sig.inputs.first(),
-                Some(syn::FnArg::Receiver(receiver)) if receiver.reference.is_none()
+                Some(syn::FnArg::Receiver(receiver))
+                    if receiver.reference.is_none()
+                        && matches!(receiver.ty.as_ref(), syn::Type::Path(ty) if ty.path.is_ident("Self"))
             );
             DelegatingMethod {
                 trait_fn,
